@@ -19,7 +19,7 @@ def main():
     args=[a for a in sys.argv[1:] if not a.startswith('-')]
     j=4
     if '-j' in sys.argv: j=int(sys.argv[sys.argv.index('-j')+1]); args=[a for a in args if a!=str(j)]
-    dirs=[d for d in sorted(glob.glob(f'{ROOT}/seeded/C*')) if os.path.exists(d+'/patch.diff') and (not args or os.path.basename(d) in args)]
+    dirs=[d for d in sorted(glob.glob(f'{ROOT}/seeded/C*')) if os.path.exists(d+'/patch.diff') and not os.path.exists(d+'/superseded.json') and (not args or os.path.basename(d) in args)]
     res={}; bad=0
     with ThreadPoolExecutor(j) as ex:
         for sid,out in ex.map(one,dirs):
